@@ -18,7 +18,7 @@ from lxml import etree
 
 from sdc11073 import xml_utils
 from sdc11073.exceptions import ApiUsageError
-from sdc11073.namespaces import QN_TYPE, docname_from_qname, text_to_qname
+from sdc11073.namespaces import QN_TYPE, default_ns_helper, docname_from_qname, text_to_qname
 from sdc11073.xml_types import isoduration
 from sdc11073.xml_types.dataconverters import (
     BooleanConverter,
@@ -49,6 +49,16 @@ MANDATORY_VALUE_CHECKING = True  # checks if mandatory values are present when x
 
 class ElementNotFoundError(Exception):  # noqa: D101
     pass
+
+
+def _nsmap_for_value(ns_map: dict, value: Any, value_class: Any) -> dict:
+    """Return ns_map, extended by the namespace of the xsi:type that will be written for value (if it is not declared yet)."""
+    node_type = getattr(value, 'NODETYPE', None)
+    if node_type is None or node_type == getattr(value_class, 'NODETYPE', None) or node_type.namespace in ns_map.values():
+        return ns_map
+    ret = dict(ns_map)
+    ret[default_ns_helper._prefix_map.get(node_type.namespace, 'tns')] = node_type.namespace  # noqa: SLF001
+    return ret
 
 
 class _NumberStack:
@@ -1116,14 +1126,15 @@ class SubElementProperty(_ElementBase):
                     raise ValueError(f'mandatory value {self._sub_element_name} missing')  # noqa: EM102
                 etree.SubElement(node, self._sub_element_name, nsmap=node.nsmap)
         else:
-            sub_node = py_value.as_etree_node(self._sub_element_name, node.nsmap, node)
+            ns_map = _nsmap_for_value(node.nsmap, py_value, self.value_class)
+            sub_node = py_value.as_etree_node(self._sub_element_name, ns_map, node)
             if (
                 hasattr(py_value, 'NODETYPE')
                 and hasattr(self.value_class, 'NODETYPE')
                 and py_value.NODETYPE != self.value_class.NODETYPE
             ):
                 # set xsi type
-                sub_node.set(QN_TYPE, docname_from_qname(py_value.NODETYPE, node.nsmap))
+                sub_node.set(QN_TYPE, docname_from_qname(py_value.NODETYPE, sub_node.nsmap))
 
 
 class ContainerProperty(_ElementBase):
@@ -1156,7 +1167,7 @@ class ContainerProperty(_ElementBase):
             sub_node = self._get_element_by_child_name(node, self._sub_element_name, create_missing_nodes=False)
             node_type_str = sub_node.get(QN_TYPE)
             if node_type_str is not None:
-                node_type = text_to_qname(node_type_str, node.nsmap)
+                node_type = text_to_qname(node_type_str, sub_node.nsmap)
                 value_class = self._cls_getter(node_type)
             else:
                 value_class = self.value_class
@@ -1184,7 +1195,7 @@ class ContainerProperty(_ElementBase):
             sub_node = py_value.mk_node(self._sub_element_name, self._ns_helper, node)
             if py_value.NODETYPE != self.value_class.NODETYPE:
                 # set xsi type
-                sub_node.set(QN_TYPE, docname_from_qname(py_value.NODETYPE, node.nsmap))
+                sub_node.set(QN_TYPE, docname_from_qname(py_value.NODETYPE, sub_node.nsmap))
 
 
 class _ElementListProperty(_ElementBase, ABC):
@@ -1251,14 +1262,15 @@ class SubElementListProperty(_ElementListProperty):
 
         if py_value is not None:
             for val in py_value:
-                sub_node = val.as_etree_node(self._sub_element_name, node.nsmap, node)
+                ns_map = _nsmap_for_value(node.nsmap, val, self.value_class)
+                sub_node = val.as_etree_node(self._sub_element_name, ns_map, node)
                 if (
                     hasattr(val, 'NODETYPE')
                     and hasattr(self.value_class, 'NODETYPE')
                     and val.NODETYPE != self.value_class.NODETYPE
                 ):
                     # set xsi type
-                    sub_node.set(QN_TYPE, docname_from_qname(val.NODETYPE, node.nsmap))
+                    sub_node.set(QN_TYPE, docname_from_qname(val.NODETYPE, sub_node.nsmap))
 
     def __repr__(self) -> str:
         return f'{self.__class__.__name__} datatype {self.value_class.__name__} in subelement {self._sub_element_name}'
@@ -1325,7 +1337,7 @@ class ContainerListProperty(_ElementListProperty):
                 sub_node = val.mk_node(self._sub_element_name, self._ns_helper, node)
                 if val.NODETYPE != self.value_class.NODETYPE:
                     # set xsi type
-                    sub_node.set(QN_TYPE, docname_from_qname(val.NODETYPE, node.nsmap))
+                    sub_node.set(QN_TYPE, docname_from_qname(val.NODETYPE, sub_node.nsmap))
 
     def __repr__(self) -> str:
         return f'{self.__class__.__name__} datatype {self.value_class.__name__} in subelement {self._sub_element_name}'
